@@ -169,7 +169,7 @@ class Ctx:
         return any(k["tag"] == tag for k in self.known)
 
 
-def corr_run(ctx, name, vh_args, component_desc, nontrivial=lambda c: True, spec_component=None, spec_tags=None, max_samples=3):
+def corr_run(ctx, name, vh_args, component_desc, nontrivial=lambda c: True, spec_component=None, spec_tags=None, has_oracle=False, max_samples=3):
     """run a harness sub-command that writes cases.txt/cases.json(/spec.txt), evaluate the model on
     every case and report differences.
 
@@ -216,18 +216,23 @@ def corr_run(ctx, name, vh_args, component_desc, nontrivial=lambda c: True, spec
                 ctx.known_finding(tag, "(e.g. case %d of run %s: %s)" % (i, name, json.dumps(cases[i])[:300]))
                 continue
             specbad.append(i)
+    # property oracle evaluated by the harness itself on the implementation's answers
+    for i, c in enumerate(cases):
+        if c.get("oracle_fail") and i not in specbad:
+            specbad.append(i)
     reported = 0
     # 1. the implementation's observation violates the executable specification: concrete failing input
     for i in specbad[:5]:
         ctx.violation(name + "_spec", {"kind": "specification violated by the implementation on this input",
                                       "run": name, "vh_args": vh_args, "index": i, "case": cases[i], "line": lines[i],
-                                      "spec_verdict": specv[i], "model_verdict": verdicts[i]})
+                                      "spec_verdict": (specv[i] if specv else None), "oracle_fail": cases[i].get("oracle_fail"),
+                                      "model_verdict": verdicts[i]})
         reported += 1
     # 2. model and implementation differ although the spec oracle is satisfied (or there is none)
     rest = [i for i in mism if i not in set(specbad)]
     if rest and not reported:
         i = rest[0]
-        found = specv is None  # without a separate spec oracle the differing case is itself the failing input
+        found = specv is None and not has_oracle  # without a separate spec oracle the differing case is itself the failing input
         ctx.violation(name + "_corr", {"kind": "correspondence broken: model and implementation differ on this case",
                                       "broken": "correspondence %s (%s)" % (name, component_desc),
                                       "run": name, "vh_args": vh_args, "index": i, "case": cases[i], "line": lines[i],
